@@ -65,14 +65,10 @@ def canon_tok(dt, body):
     """canonicalise one answer token for model/implementation comparison"""
     if body.startswith("dbg "):
         return "dbg"
-    if C.DTYPES[dt][2] == "ts96" and body == "err InvalidArgument":
-        # Timestamp96::from_bytes reports an out-of-range raw value as InvalidArgument; the model's parser
-        # has one kind for rejected bytes. Protocol errors are InvalidArgument on both sides, so they still agree.
-        return "err Corruption|InvalidArgument"
-    if C.DTYPES[dt][2] == "ts96" and body == "err Corruption":
-        return "err Corruption|InvalidArgument"
-    if C.DTYPES[dt][2] == "ts96" and " , err " in body:
-        return body.replace(" , err InvalidArgument", " , err Corruption|InvalidArgument").replace(" , err Corruption", " , err Corruption|InvalidArgument").replace("|InvalidArgument|InvalidArgument", "|InvalidArgument")
+    if C.DTYPES[dt][2] == "ts96" and "err " in body:
+        # Timestamp96::from_bytes reports an out-of-range raw value as InvalidArgument; the model's parser has one
+        # kind for rejected bytes. For the two 96-bit types Corruption and InvalidArgument are therefore identified.
+        return body.replace("err InvalidArgument", "err Corruption|InvalidArgument").replace("err Corruption", "err Corruption|InvalidArgument").replace("|InvalidArgument|InvalidArgument", "|InvalidArgument")
     return body
 
 def compare_dops(ctx, lines, impl_answers, stream="dops", sample=None, timeout=2400):
